@@ -180,7 +180,12 @@ pub fn run_state_case<T: Sc>(out: Option<&mut Out>, c: &StateCase<T>, fault: Opt
         // repeated query must not change anything (not under fault injection: the extra derivative
         // calls would shift the call indices)
         if fault.is_none() {
-            emit_outputs(out, "again", prob.as_ref());
+            if c.flavour.is_par() {
+                // ... whatever pool the repeated query runs in
+                crate::common::in_alt_pool(i + c.recipe.n(), || emit_outputs(out, "again", prob.as_ref()));
+            } else {
+                emit_outputs(out, "again", prob.as_ref());
+            }
         }
         // a CLONE of the problem, moved to other parameters, must behave like a fresh problem there and
         // must leave the original alone (the following steps of the original are compared as usual)
@@ -240,7 +245,8 @@ pub fn random_state_case<T: Sc>(rng: &mut Rng, thorough: bool, idx: usize) -> St
         2 => {
             o.max_m = 3;
             o.max_p = 3;
-            o.fixed_n = Some(big_size(rng, thorough));
+            // one in three of these: thousands of samples (several blocks of any row blocking)
+            o.fixed_n = Some(if (idx / 32) % 3 == 1 { *rng.pick(&crate::gen::HUGE_SIZES) } else { big_size(rng, thorough) });
         }
         3 => {
             o.max_m = if thorough { 12 } else { 9 };
@@ -252,6 +258,8 @@ pub fn random_state_case<T: Sc>(rng: &mut Rng, thorough: bool, idx: usize) -> St
     let recipe = random_recipe(rng, &o);
     let flavour = if big == 1 {
         *rng.pick(&[Flavour::Mrhs, Flavour::Mrhs, Flavour::MrhsPar])
+    } else if big == 2 && recipe.n() > 1024 {
+        *rng.pick(&[Flavour::NewPar, Flavour::MrhsPar, Flavour::NewPar, Flavour::MrhsPar, Flavour::New, Flavour::Mrhs])
     } else {
         *rng.pick(&[Flavour::New, Flavour::Mrhs, Flavour::New, Flavour::Mrhs, Flavour::NewPar, Flavour::MrhsPar])
     };
